@@ -6,6 +6,7 @@ import Tengo.Props.C01F3
 import Tengo.Props.C01F3Bridge
 import Tengo.Props.C01F3Source
 import Tengo.Props.C01F3Spec
+import Tengo.Props.C01F3Converse
 /-! C01: the abstract compiler-correctness theorems for the fragments F0/F1 (`C01`) and their bridge to the big
 models (`C01Bridge`): on the fragment, the reference interpreter `Spec.runProgram`, the compiler model
 `Compiler.compileFile` and the whole-VM model `VM.run` agree — as one module for the checker. -/
